@@ -280,7 +280,27 @@ def generate(rng, tier, index):
             ops.append({"s": s, "op": "ensure", "cs": cs, "nest": 1, "pin": True})
         ops.append({"s": s, "op": "find_answer"})
     ops = add_fault(rng, ops)
+    ops = add_rejected(rng, ops)
     return {"prop": ID, "sessions": sessions, "ops": ops}
+
+
+def add_rejected(rng, ops, p=0.08):
+    """In some sessions the program makes an API call that the Solver rejects (TypeError / ValueError):
+    a constraint that is not boolean, an integer array with lo > hi, an answer key that is not a
+    variable.  It catches the exception and carries on with the same Solver."""
+    r = random.Random(rng.random())  # one draw: the rest of the scenario stream is unchanged
+    if r.random() >= p:
+        return ops
+    at = [j for j, o in enumerate(ops) if o["op"] in ("find_answer", "ensure")]
+    if not at:
+        return ops
+    j = r.choice(at)
+    what = r.choice(["ensure_int", "ensure_none", "int_array", "key_bad"])
+    rej = {"s": ops[j].get("s", 0), "op": "rejected", "what": what}
+    if what == "int_array":
+        lo = r.randint(-3, 3)
+        rej.update(lo=lo, hi=lo - r.randint(1, 3), n=r.choice([1, 2, 3]))
+    return ops[:j] + [rej] + ops[j:]
 
 
 def add_fault(rng, ops, p=0.1):
@@ -370,6 +390,19 @@ def valid(sc):
                     return False
             elif k == "arm_fault":
                 if op["n"] < 1 or op.get("torn", 0) < 0:
+                    return False
+            elif k == "rejected":
+                if op["what"] == "key_dup":
+                    new = op["new"]
+                    if len(set(new)) != len(new) or any(not 0 <= i < len(decls[s]) or i in keys[s] for i in new):
+                        return False
+                    if not (op["dup"] in keys[s] or op["dup"] in new):
+                        return False
+                    keys[s].update(new)
+                elif op["what"] == "int_array":
+                    if op["lo"] <= op["hi"]:
+                        return False
+                elif op["what"] not in ("ensure_int", "ensure_none", "key_bad"):
                     return False
             elif k not in ("find_answer", "solve"):
                 return False
@@ -585,6 +618,26 @@ def _run_ops(sc, res, sessions, ctx, z3cap):
                 z3cap["result"] = res
                 res.log("op", n_op, "arm_fault", op["n"], op.get("torn", 0), op.get("kind"))
                 continue
+            if k == "rejected":
+                w = op["what"]
+                try:
+                    if w == "ensure_int":
+                        S.solver.ensure(7)
+                    elif w == "ensure_none":
+                        S.solver.ensure(None)
+                    elif w == "int_array":
+                        S.solver.int_array(op.get("n", 2), op["lo"], op["hi"])
+                    else:
+                        S.solver.add_answer_key(5)
+                except (ValueError, TypeError) as e:
+                    res.hit("fault:api_call_rejected:" + w)
+                    res.log("op", n_op, "rejected", w, type(e).__name__)
+                    continue
+                # accepted after all: what was posted / declared is no longer known
+                res.hit("inconclusive:rejected_call_was_accepted:" + w)
+                res.inconclusive = True
+                res.log("op", n_op, "rejected", w, "accepted")
+                return res
             if k == "bool_var":
                 S.vars.append(S.solver.bool_var())
                 S.decls.append({"t": "b"})
@@ -801,6 +854,10 @@ def drop_var(sc, s, vid):
             if op["id"] == vid:
                 continue
             ops.append(dict(op, id=op["id"] - 1 if op["id"] > vid else op["id"]))
+        elif k == "rejected" and op.get("what") == "key_dup":
+            if vid == op["dup"] or vid in op["new"]:
+                return None
+            ops.append(dict(op, new=[(i - 1 if i > vid else i) for i in op["new"]], dup=op["dup"] - 1 if op["dup"] > vid else op["dup"]))
         else:
             ops.append(op)
     return dict(sc, ops=ops) if removed else None
